@@ -64,6 +64,7 @@ func nrecvon(ch any) int            { return 0 }
 func wirelen() int                  { return 0 }
 func wirebyte(i int) uint8          { return 0 }
 func closed(ch any) bool            { return false }
+func oncedone(o any) bool           { return false }
 
 //   nevents(kind)/eventref[T](kind, i): ghost event log (kind "call": calls through a field declared `logged`)
 func nevents(kind string) int              { return 0 }
@@ -138,7 +139,7 @@ func qinv(q *queue) bool {
 		tminv(q.timeoutManager) && q.syncer.timeoutManager == q.timeoutManager && q.cfg.s >= 2 && q.syncer.s == q.cfg.s &&
 		!isnil(q.cfg.sendPkt) &&
 		q.sequenceBase < q.cfg.s && q.sequenceTop < q.cfg.s &&
-		len(q.content) == int(q.cfg.s)
+		len(q.content) == int(q.cfg.s) && !isnil(q.quit)
 }
 
 // qcontent: every slot of the window holds the packet that carries its sequence number.
@@ -287,6 +288,7 @@ func syinv(c *syncer) bool {
 //@ field syncer.quit closeonly
 //@ field config.sendToStream sink
 //@ field queueCfg.sendPkt logged
+//@ field GoBackNConn.cancel logged
 
 //@ func containsSequence(base, top, seq uint8) (r bool)
 //@   props C01 C07 C09
@@ -498,7 +500,7 @@ func wireGrew2(oldLen int, b0, b1 uint8) bool {
 //@   ensures !closed(g.quit) && !closed(g.remoteClosed) && !closed(g.sendQueue.quit)
 
 //@ func (g *GoBackNConn) serverHandshake() (err error)
-//@   props C07 C10
+//@   props C07 C10 C12
 //@   requires ginv(g) && g.recvSeq == 0
 //@   noframe
 //@   loop 0 invariant ginv(g) && g.recvSeq == 0 && g.sendQueue == old(g.sendQueue) && implies(resent, 1 <= n && n <= 254)
@@ -512,7 +514,7 @@ func wireGrew2(oldLen int, b0, b1 uint8) bool {
 //@   ensures @C10 implies(g.sendQueue == old(g.sendQueue), g.cfg.n == old(g.cfg.n))
 
 //@ func (g *GoBackNConn) clientHandshake() (err error)
-//@   props C07 C10
+//@   props C07 C10 C12
 //@   requires ginv(g)
 //@   noframe
 //@   loop 0 invariant ginv(g) && g.cfg.n == old(g.cfg.n) && wirelen() >= old(wirelen())
@@ -558,7 +560,7 @@ func wireGrew2(oldLen int, b0, b1 uint8) bool {
 //@   ensures closed(t.quit) && t.isActive == 0
 
 //@ func (g *GoBackNConn) receivePacketsForever() (err error)
-//@   props C01 C07 C09
+//@   props C01 C07 C09 C12
 //@   requires ginv(g) && gstarted(g) && !closed(g.remoteClosed)
 //@   noframe
 //@   loop 0 invariant ginv(g)
@@ -576,8 +578,14 @@ func wireGrew2(oldLen int, b0, b1 uint8) bool {
 //@   loop 0 step @C01 implies(g.recvSeq == old(g.recvSeq), wirelen() == old(wirelen()) || wireGrew2(old(wirelen()), NACK, g.recvSeq))
 //@   loop 0 step @C01,C09 g.sendQueue.sequenceTop == old(g.sendQueue.sequenceTop)
 
+//@ func (c *syncer) proceedAfterTime()
+//@   props C07 C12
+//@   requires syinv(c) && tminv(c.timeoutManager)
+//@   modifies c.state
+//@   noframe
+
 //@ func (c *syncer) waitForSync()
-//@   props C07
+//@   props C07 C12
 //@   requires syinv(c) && tminv(c.timeoutManager)
 //@   modifies c.state
 //@   noframe
@@ -600,7 +608,7 @@ func wireGrew2(oldLen int, b0, b1 uint8) bool {
 //@   ensures @C01,C09 implies(old(qsize(q)) == 0, nevents("call") == old(nevents("call")))
 
 //@ func (g *GoBackNConn) sendPacketsForever() (err error)
-//@   props C01 C07 C09
+//@   props C01 C07 C09 C12
 //@   requires ginv(g) && gstarted(g) && qcontent(g.sendQueue) && qsize(g.sendQueue) < int(g.cfg.n)
 //@   noframe
 //@   at "g.sendQueue.addPacket(packet)" assume notQueued(g.sendQueue, packet)
@@ -620,6 +628,52 @@ func wireGrew2(oldLen int, b0, b1 uint8) bool {
 //@           qsize(g.sendQueue) == old(qsize(g.sendQueue))+1 &&
 //@           wirelen() >= old(wirelen())+4 && wirebyte(old(wirelen())) == DATA && wirebyte(old(wirelen())+1) == old(g.sendQueue.sequenceTop))
 //@   loop 0 step @C01 implies(g.sendQueue.sequenceTop == old(g.sendQueue.sequenceTop), wirelen() == old(wirelen()))
+
+// ---- shutdown (C12) ------------------------------------------------------------
+
+// gopen: the connection has not been closed yet: Close's once-body has not run,
+// the quit channels are open.
+func gopen(g *GoBackNConn) bool {
+	return !oncedone(&g.closeOnce) && !closed(g.quit) && !closed(g.sendQueue.quit)
+}
+
+//@ func (q *queue) stop()
+//@   props C12
+//@   requires q != nil && !isnil(q.quit) && !closed(q.quit)
+//@   modifies chanstate(q.quit)
+//@   ensures closed(q.quit)
+
+//@ func NewIntervalAwareForceTicker(interval time.Duration) (t *IntervalAwareForceTicker)
+//@   props C12 C18
+//@   ensures fresh(t) && tkinv(t) && fresh(t.quit) && t.isActive == 0
+
+//@ func (g *GoBackNConn) start()
+//@   props C12
+//@   requires ginv(g) && g.pingTicker == nil && g.pongTicker == nil && g.resendTicker == nil && !isnil(g.cancel)
+//@   noframe
+//@   ensures ginv(g)
+//@   ensures tkinv(g.pingTicker) && tkinv(g.pongTicker) && g.pingTicker != g.pongTicker
+//@   ensures g.pingTicker.quit != g.pongTicker.quit && g.resendTicker != nil
+//@   ensures g.pingTicker.quit != g.quit && g.pingTicker.quit != g.remoteClosed && g.pingTicker.quit != g.sendQueue.quit
+//@   ensures g.pongTicker.quit != g.quit && g.pongTicker.quit != g.remoteClosed && g.pongTicker.quit != g.sendQueue.quit
+//@   ensures @C12 nevents("wg.add") == old(nevents("wg.add"))+2
+
+//@ func (g *GoBackNConn) Close() (err error)
+//@   props C12
+//@   requires ginv(g) && !isnil(g.cancel) && iff(oncedone(&g.closeOnce), closed(g.quit)) && iff(oncedone(&g.closeOnce), closed(g.sendQueue.quit))
+//@   requires (g.pingTicker == nil && g.pongTicker == nil && g.resendTicker == nil) || gstarted(g)
+//@   noframe
+//@   ensures err == nil && oncedone(&g.closeOnce)
+//@   ensures @C12 closed(g.quit) && closed(g.sendQueue.quit)
+//@   ensures @C12 implies(old(oncedone(&g.closeOnce)), wirelen() == old(wirelen()) && nevents("call.GoBackNConn.cancel") == old(nevents("call.GoBackNConn.cancel")))
+//@   ensures @C12 implies(!old(oncedone(&g.closeOnce)) && !old(closed(g.remoteClosed)), wirelen() == old(wirelen())+1 && wirebyte(old(wirelen())) == FIN)
+//@   ensures @C12 implies(!old(oncedone(&g.closeOnce)) && old(closed(g.remoteClosed)), wirelen() == old(wirelen()))
+//@   ensures @C12 implies(!old(oncedone(&g.closeOnce)), nevents("call.GoBackNConn.cancel") == old(nevents("call.GoBackNConn.cancel"))+1 &&
+//@           nevents("wg.wait") == old(nevents("wg.wait"))+1)
+//@   ensures @C12 implies(!old(oncedone(&g.closeOnce)) && g.pingTicker != nil, closed(g.pingTicker.quit))
+//@   ensures @C12 implies(!old(oncedone(&g.closeOnce)) && g.pongTicker != nil, closed(g.pongTicker.quit))
+//@   ensures @C12 implies(!old(oncedone(&g.closeOnce)) && g.resendTicker != nil,
+//@           nevents("stop.ticker") == old(nevents("stop.ticker"))+1 && eventref[*time.Ticker]("stop.ticker", nevents("stop.ticker")-1) == g.resendTicker)
 
 // ---- chunking (C14) -------------------------------------------------------------
 
